@@ -34,12 +34,26 @@ class InjectedFault(RuntimeError):
     """Failure injected by the simulator at a fault site."""
 
 
+class InjectedValueFault(InjectedFault, ValueError):
+    """Same, but also a ValueError: what input validation of a real estimator
+    raises (code that handles ValueError specially takes that path)."""
+
+
+class InjectedCancel(BaseException):
+    """An interruption (KeyboardInterrupt-like): not an Exception, so only
+    try/finally protects against it, ``except Exception`` does not."""
+
+
+FAULT_KINDS = {"runtime": InjectedFault, "value": InjectedValueFault, "cancel": InjectedCancel}
+
+
 class FaultPlan:
     """Maps site names to actions.  A site is named
     ``(task index, peer class, method, ordinal of that call within the task)``
     so that the same site is the same site under every schedule."""
 
-    def __init__(self, fire=()):
+    def __init__(self, fire=(), kind="runtime"):
+        self.kind = kind
         self.fire = set(tuple(f) for f in fire)
         self.counters = {}
         self.seen = []
@@ -59,10 +73,11 @@ class FaultPlan:
         if name in self.fire:
             self.fired.append(name)
             c.faults_fired["peer_raise:" + method] += 1
+            c.faults_fired["kind:" + self.kind] += 1
             if s is not None and s.inflight >= 2:
                 c.probe("fault_while_other_task_in_flight")
             c.log.ev("fault", name)
-            raise InjectedFault("injected fault at %r" % (name,))
+            raise FAULT_KINDS[self.kind]("injected fault at %r" % (name,))
 
 
 def _site(self, method):
